@@ -7,25 +7,28 @@
 #define LINE_CONTRACTS_H
 #ifndef NATIVE_REPLAY
 #include "rec_inv.h"
+#include "text_contracts.h"
 #define IS_EOL(c) ((c) == '\n' || (c) == '\r')
 #define IS_END(c) (IS_EOL(c) || (c) == '\0')
 
 /* what str_to_instr promises about the text position, for the line starting at s:
  * *read_len ends exactly behind the first line end (LF or CR) or at the terminating NUL, and no
  * line end lies inside the consumed part - so the next iteration starts at the next line */
-#define STR_TO_INSTR_POST(I, s, read_len, remaining)                                                   \
+#define STR_TO_INSTR_POST_RANGE(I, s, read_len, remaining)                                             \
   __CPROVER_ensures(__CPROVER_return_value == EXIT_SUCCESS || __CPROVER_return_value == EXIT_FAILURE)    \
   __CPROVER_ensures(__CPROVER_return_value == EXIT_SUCCESS ==> (1 <= *(read_len) && *(read_len) <= (remaining))) \
-  __CPROVER_ensures(__CPROVER_return_value == EXIT_SUCCESS && 0 <= g_q && g_q < *(read_len) - 1 ==> !IS_END(g_qc)) \
-  __CPROVER_ensures(__CPROVER_return_value == EXIT_SUCCESS ==> (IS_EOL((s)[*(read_len) - 1]) || (s)[*(read_len)] == '\0')) \
   __CPROVER_ensures(__CPROVER_return_value == EXIT_SUCCESS ==> ((I)->key == SKIP || rec_inv(I)))
+#define STR_TO_INSTR_POST(I, s, read_len, remaining)                                                   \
+  STR_TO_INSTR_POST_RANGE(I, s, read_len, remaining)                                                   \
+  __CPROVER_ensures(__CPROVER_return_value == EXIT_SUCCESS && 0 <= g_q && g_q < *(read_len) - 1 ==> !IS_END(g_qc)) \
+  __CPROVER_ensures(__CPROVER_return_value == EXIT_SUCCESS ==> (IS_EOL((s)[*(read_len) - 1]) || (s)[*(read_len)] == '\0'))
 
 /* filtered text -> record.  The text is the 100-byte line buffer, NUL-terminated. */
 #define LINE_TO_INSTR_CONTRACT(VALID_I, VALID_F)                                                        \
   __CPROVER_requires(VALID_I(instr_data, sizeof(struct instr)))                                          \
   __CPROVER_requires(VALID_F(filtered_asm_str, FILTERED_STR_LEN) && filtered_asm_str[FILTERED_STR_LEN - 1] == '\0') \
   __CPROVER_requires(filtered_asm_str[0] >= 'A' && filtered_asm_str[0] <= 'z')   /* the filter starts a non-empty line at its first letter-range character */ \
-  __CPROVER_assigns(__CPROVER_object_whole(instr_data), __CPROVER_object_whole(filtered_asm_str), g_eq_s2) \
+  __CPROVER_assigns(__CPROVER_object_whole(instr_data), __CPROVER_object_whole(filtered_asm_str)) \
   __CPROVER_ensures(__CPROVER_return_value == EXIT_SUCCESS || __CPROVER_return_value == EXIT_FAILURE)    \
   __CPROVER_ensures(__CPROVER_return_value == EXIT_SUCCESS ==> rec_inv(instr_data))
 int line_to_instr__c(struct instr *instr_data, char *filtered_asm_str) LINE_TO_INSTR_CONTRACT(__CPROVER_rw_ok, __CPROVER_rw_ok);
@@ -45,7 +48,7 @@ int str_to_instr__e(struct instr *instr_data, const char unfiltered_str[], int *
   __CPROVER_requires(g_len >= 1 && g_len <= LINE_MAX_OBJ && __CPROVER_is_fresh(unfiltered_str, STI_OBJ) && g_in == unfiltered_str)
   __CPROVER_requires(unfiltered_str[g_len] == '\0' && unfiltered_str[0] != '\0')
   __CPROVER_requires(g_bad >= 0 && g_bad <= g_len && g_q >= 0 && g_q <= g_len && g_qc == unfiltered_str[g_q])
-  __CPROVER_assigns(__CPROVER_object_whole(instr_data), *read_len, g_eq_s2)
+  __CPROVER_assigns(__CPROVER_object_whole(instr_data), *read_len)
   STR_TO_INSTR_POST(instr_data, unfiltered_str, read_len, g_len);
 /* the same function, memory-safety run: CBMC's pointer/bounds/overflow checks on, postconditions
  * reduced to the return values and the frame (the position clauses are proved in the run above) */
@@ -53,7 +56,7 @@ int str_to_instr__es(struct instr *instr_data, const char unfiltered_str[], int 
   __CPROVER_requires(__CPROVER_is_fresh(instr_data, sizeof(struct instr)) && __CPROVER_is_fresh(read_len, sizeof(int)))
   __CPROVER_requires(g_len >= 1 && g_len <= LINE_MAX_OBJ && __CPROVER_is_fresh(unfiltered_str, g_len + 1) && g_in == unfiltered_str)
   __CPROVER_requires(unfiltered_str[g_len] == '\0' && unfiltered_str[0] != '\0')
-  __CPROVER_assigns(__CPROVER_object_whole(instr_data), *read_len, g_eq_s2)
+  __CPROVER_assigns(__CPROVER_object_whole(instr_data), *read_len)
   __CPROVER_ensures(__CPROVER_return_value == EXIT_SUCCESS || __CPROVER_return_value == EXIT_FAILURE)
   __CPROVER_ensures(__CPROVER_return_value == EXIT_SUCCESS ==> (1 <= *read_len && *read_len <= g_len));
 /* filter as seen by the safety run: frame, return range, termination of the buffer, first character */
